@@ -157,7 +157,10 @@ func runGated(l *concLine, a *Acc) (results [][]string, desync string) {
 				s.mu.Lock()
 				s.budget[g] = segs - 1
 				s.mu.Unlock()
-				r := concOp(op, g+1)
+				var r string
+				if p := guard(func() { r = concOp(op, g+1) }); p != "" {
+					r = "PANIC " + p
+				}
 				// an operation that hit fewer gates than scheduled: the remaining segments are empty
 				s.mu.Lock()
 				left := s.budget[g]
@@ -230,7 +233,11 @@ func freeRun(progs [][]string, a *Acc, reps int) {
 			g := w%len(progs) + 1
 			for r := 0; r < reps; r++ {
 				for _, op := range progs[g-1] {
-					if got := concOp(op, g); got != concSeq(op, g) {
+					var got string
+					if p := guard(func() { got = concOp(op, g) }); p != "" {
+						got = "PANIC " + p
+					}
+					if got != concSeq(op, g) {
 						select {
 						case errs <- fmt.Sprintf("free-running goroutine %d: %s gave a result different from sequential execution", w, op):
 						default:
